@@ -446,7 +446,14 @@ def setup_ctx(ctx):
 
 
 def run(ctx):
+    import time
     setup_ctx(ctx)
+    t0 = [time.time()]
+    phases = ctx.extra.setdefault("phase_seconds", {})
+
+    def lap(name):
+        phases[name] = round(time.time() - t0[0], 1)
+        t0[0] = time.time()
     # 1. regenerate the lock table, then re-check the theorems
     rows = None
     try:
@@ -461,15 +468,18 @@ def run(ctx):
     if lists["mutating_commands"] != list(MUTATING) or lists["reader_commands"] != list(READERS):
         ctx.proof_problems.append({"theorem": "updaters_exclusive",
                                    "what": "command lists of Model/Lock.v and harness/c09.py differ", "coq": lists})
+    lap("theorems")
     # 2. registration
     if rows is not None:
         check_registration(ctx, rows)
+    lap("registration")
     # 3. corpus
     corpus = [c for c in corpus_cases() if c.get("mode", "lock") == "lock"]
     if corpus:
         check_cases(ctx, corpus, "corpus")
         for c in corpus[:2]:
             ctx.sample(c)
+    lap("corpus")
     # 4. exhaustive two-process exploration
     cap = ctx.size(20000, 400000)
     configs = []
@@ -477,19 +487,24 @@ def run(ctx):
         for k2 in "SE":
             configs.append((k1 + k2, procs2(k1, k2)))
             configs.append((k1 + k2 + "-child", procs2(k1, k2, child=True)))
+    # three processes, one attempt each: the smallest setting in which a process can come and go while another
+    # is parked between two of its calls (windows K2 and K3 need a third party)
+    configs.append(("SEE-ntry1", [{"pid": i + 1, "kind": k, "root": None, "ntry": 1} for i, k in enumerate("SEE")]))
     if ctx.tier == "thorough":
-        for ks in ("SSE", "SEE", "ESE"):
+        for ks in ("SSE", "ESE", "SES"):
             configs.append((ks + "-ntry1", [{"pid": i + 1, "kind": k, "root": None, "ntry": 1} for i, k in enumerate(ks)]))
         configs.append(("E+siblings-ES-ntry1",
                         [{"pid": 1, "kind": "E", "root": None, "ntry": 1}, {"pid": 2, "kind": "E", "root": 1, "ntry": 1},
                          {"pid": 3, "kind": "S", "root": 1, "ntry": 1}]))
     complete = explore(ctx, configs, cap)
     ctx.exhaustive = complete
+    lap("exhaustive")
     # 5. random three-process schedules
     n = ctx.size(2000, 15000)
     cases = [gen_random(ctx.rng) for _ in range(n)]
     ctx.sample(cases[0])
     check_cases(ctx, cases, "random3")
+    lap("random3")
 
 
 def replay(ctx, path):
